@@ -199,13 +199,16 @@ def run_case(case):
             model = dzoo.build_dist(cfg, seed)
             label = "dist_" + cfg["dist"]
             me = None
-            dirs = ["log_prob"]
+            dirs = ["log_prob"] + (["sampling"] if cfg["dist"] == "cond_diag" else [])
         else:
             model = dzoo.build_flow(cfg, seed, policy=case["policy"])
             dzoo.warm_flow(model, cfg, seed)
             label = "flow_" + cfg["flow"]
             me = None
-            dirs = ["log_prob"]
+            # pathwise gradients exist where the base is reparameterised (normal families; not the mixture's discrete component
+            # choice) - and not through UMNN inverses (open finding F-UMNN-INVERSE-GRAD)
+            reparam = cfg.get("base", "standard") in ("standard", "cond_diag") and "umnn" not in str(cfg) and mode == "eval"
+            dirs = ["log_prob"] + (["sampling"] if reparam else [])
     except Exception as e:
         r.inconc("construction failed %r" % (e,))
         return r.done()
@@ -309,6 +312,13 @@ def run_case(case):
 
 def functional(model, kind, direction, x, ctx, w, v):
     torch.manual_seed(20260927)      # dropout in training mode: the same masks in every evaluation (a deterministic function)
+    if direction == "sampling":
+        # the reparameterised sampling path under a fixed seed: samples and their log-probabilities as functions of the context
+        # and the parameters (what a variational objective differentiates)
+        sm, lp = model.sample_and_log_prob(3, ctx) if ctx is not None else model.sample_and_log_prob(3)
+        ws = torch.linspace(-1.0, 1.0, sm.numel(), dtype=sm.dtype).reshape(sm.shape)
+        vs = torch.linspace(0.5, -0.7, lp.numel(), dtype=lp.dtype).reshape(lp.shape)
+        return (ws * sm).sum() + (vs * lp).sum()
     if kind in ("flow", "dist"):
         lp = model.log_prob(x, ctx)
         return (v * lp).sum()
@@ -323,7 +333,10 @@ def check_direction(r, model, kind, label, direction, x, ctx, params, g, case, c
     #  graph-free tensors and hide what the first differentiable call stores there)
     try:
         with torch.no_grad():
-            if kind in ("flow", "dist"):
+            if direction == "sampling":
+                w = v = None
+                functional(copy.deepcopy(model), kind, direction, x, ctx, w, v)      # sampler available at all?
+            elif kind in ("flow", "dist"):
                 w = None
                 v = torch.randn(x.shape[0], generator=g)
             else:
@@ -342,6 +355,24 @@ def check_direction(r, model, kind, label, direction, x, ctx, params, g, case, c
         model.zero_grad(set_to_none=True)
         try:
             L = functional(model, kind, direction, xr, cr, w, v)
+            if direction == "sampling" and not L.requires_grad:
+                # nothing to differentiate (no parameters, a base that ignores the context) - unless the value does move when
+                # the context / the parameters move, in which case the whole path has been cut
+                with torch.no_grad():
+                    base_val = float(L)
+                    saved = [p_.detach().clone() for _, p_ in params]
+                    for _, p_ in params:
+                        p_.add_(1e-3 * torch.randn(p_.shape, generator=g).to(p_.dtype))
+                    moved = float(functional(model, kind, direction, x, None if ctx is None else ctx + 1e-3, w, v))
+                    for (_, p_), sv in zip(params, saved):
+                        p_.copy_(sv)
+                if abs(moved - base_val) > 1e-9 * (1 + abs(base_val)):
+                    r.ev()
+                    r.viol("missing_gradient", "%s sampling path: the result depends on context / parameters but carries no gradient" % label,
+                           **det)
+                    return "bad"
+                r.count("sampling_path_nothing_to_differentiate")
+                return "skip"
             L.backward()
         except Exception as e:
             r.ev()
